@@ -32,6 +32,8 @@ from ioflo.aid import checking
 PROPERTY = "C41"
 ENGINE = "E2"
 TECHNIQUE = "source->SMT translation (bit-vectors), inductive per-byte step + bounded unrolling"
+LEVEL_TEXT = "source->SMT, bit-vectors: inductive per-byte step from an arbitrary register (covers byte strings of any length) plus whole-function unrolling, crc16 <= 4 bytes quick / 8 thorough, crc64 <= 1 / 2 bytes; every query unsat"
+LEVEL_NOTE = "trusted: astsmt translator (validated on every run against the real functions incl. the catalogue check string), struct.pack model, z3 5.1 (thorough: unsat sample re-decided by cvc5 and z3 4.8.12)"
 FUNCTIONS = ["ioflo.aid.checking.crc16", "ioflo.aid.checking.crc64"]
 ASSUMPTIONS = [
     "struct.pack('!H', x) is modelled as the two big-endian bytes of x with side condition 0 <= x <= 0xffff "
